@@ -34,6 +34,7 @@ pub fn run(ctx: &mut Ctx) {
             let iters = if long { 10_000u64 } else { *rng.pick(&[1u64, 1, 2, 3, 5, 10, 30, 100, 300, 1000]) };
             let iters = if prep.flat.nodes.len() > 300 { iters.min(100) } else { iters };
             let threads = if long { *rng.pick(&[1usize, 2, 2, 3, 4]) } else { *rng.pick(&[1usize, 1, 2, 3, 4, 8, 16]) };
+            let threads = crate::props::c06::frontier_threads(rng, &tree, SolveMethod::Full, threads);
             if long {
                 ctx.count("long_runs(T>=10000)", 1);
             }
